@@ -8,6 +8,7 @@ G = 'photutils/psf/gridded_models.py::GriddedPSFModel'
 def register(reg):
     register_gaussians(reg)
     register_relational(reg)
+    register_origin(reg)
     reg.record('ImagePSF', {'oversampling': ('tuple', 'posreal', 'posreal'),
                             '_origin': ('tuple', 'real', 'real'),
                             'interpolator': ('ufunc', 'spline', 2),
@@ -237,4 +238,27 @@ def register_relational(reg):
                   f'(erf_((y - y_0 + 0.5) / ({s2} * (sigma / GAUSSIAN_FWHM_TO_SIGMA) * GAUSSIAN_FWHM_TO_SIGMA)) - '
                   f'erf_((y - y_0 - 0.5) / ({s2} * (sigma / GAUSSIAN_FWHM_TO_SIGMA) * GAUSSIAN_FWHM_TO_SIGMA)))')],
         mutants=[('dpix = 0.5', 'dpix = 0.45'), ('(np.sqrt(2) * sigma)))))', '(2 * sigma)))))')],
+    ))
+
+
+def register_origin(reg):
+    """ImagePSF "for any oversampling and origin": the stored origin is the (x, y) pair the user
+    gave, or the array centre in (x, y) order."""
+    T = 'photutils/psf/image_models.py::ImagePSF.origin.setter'
+    reg.add(Contract(
+        target=T, props=['C13'], kind='method', tag='given',
+        params={'self': 'ImagePSF', 'origin': ('arr', 1, 'real')},
+        requires=['origin.shape[0] == 2'],
+        ensures=[('stored-as-given-in-x-y-order',
+                  'self._origin[0] == origin[0] and self._origin[1] == origin[1]')],
+        mutants=[('        self._origin = origin\n', '        self._origin = origin[::-1]\n')],
+    ))
+    reg.add(Contract(
+        target=T, props=['C13'], kind='method', tag='default',
+        params={'self': 'ImagePSF', 'origin': None},
+        ensures=[('array-centre-in-x-y-order',
+                  'self._origin[0] * 2 == self.data.shape[1] - 1 and '
+                  'self._origin[1] * 2 == self.data.shape[0] - 1')],
+        mutants=[('origin = origin[::-1]  # flip to (x, y) order', 'origin = origin'),
+                 ('(np.array(self.data.shape) - 1.0) / 2.0', '(np.array(self.data.shape)) / 2.0')],
     ))
